@@ -373,7 +373,7 @@ class BlockLevel:
 
     def run(self):
         for _ in range(8):
-            changed = False
+            changed = self.temporaries()
             for owner, field in _blocks(self.fn):
                 old = getattr(owner, field)
                 new = self.block(list(old), owner, field)
@@ -541,11 +541,11 @@ class BlockLevel:
                     out.append(st)
                     out.extend(self.swap_and_hoist(rest, bare))
                     continue
-                if not (len(st.orelse) == 1 and isinstance(st.orelse[0], ast.If)):
-                    pos = positive(st.test)
-                    if pos is not None:
-                        st.test = pos
-                        st.body, st.orelse = st.orelse, st.body
+                # (also for `if not a: X elif b: ...`: the chain becomes the nested form `if a: (if b: ...) else: X`)
+                pos = positive(st.test)
+                if pos is not None:
+                    st.test = pos
+                    st.body, st.orelse = st.orelse, st.body
             out.append(st)
         return out
 
@@ -812,6 +812,7 @@ def inline_unknown_helpers(tree: ast.Module, path: str) -> None:
                     counter[0] += 1
                     r = _inline_body(h[0], call, h[1], f'h{counter[0]}', st.lineno)
                     if r is not None:
+                        h[0]._verif_expanded = getattr(h[0], '_verif_expanded', 0) + 1
                         body, result = r
                         if kind == 'expr':
                             out.extend(body)
@@ -844,6 +845,7 @@ def inline_unknown_helpers(tree: ast.Module, path: str) -> None:
                     counter[0] += 1
                     r = _inline_body(hh[0], sub, hh[1], f'h{counter[0]}', st.lineno)
                     if r is not None and r[1] is not None:
+                        hh[0]._verif_expanded = getattr(hh[0], '_verif_expanded', 0) + 1
                         out.extend(r[0])
                         _replace_node(st, sub, r[1])
                         changed = True
@@ -877,7 +879,8 @@ def _mark_transparent(tree: ast.Module) -> None:
     for h in helpers:
         own = {id(x) for x in ast.walk(h)}
         used = any((isinstance(n, ast.Name) and n.id == h.name) or (isinstance(n, ast.Attribute) and n.attr == h.name) for n in ast.walk(tree) if id(n) not in own)
-        h._verif_transparent = not used
+        # examined through its callers only if it had callers and all of them were expanded; a new function nobody calls is a new entry point
+        h._verif_transparent = not used and getattr(h, '_verif_expanded', 0) > 0
 
 
 def _conditionally_evaluated(st: ast.AST, call: ast.Call) -> bool:
